@@ -224,7 +224,7 @@ type d14 struct {
 }
 
 var tagText = map[string]string{"none": "", "ren": `argmapper:"Ren"`, "typeOnly": `argmapper:",typeOnly"`,
-	"rensub": `argmapper:"Ren,subtype=s"`, "typeOnlysub": `argmapper:",typeOnly,subtype=s"`}
+	"rensub": `argmapper:"Ren,subtype=s"`, "typeOnlysub": `argmapper:",typeOnly,subtype=s"`, "subeq": `argmapper:",typeOnly,subtype=k=v"`}
 
 func sideTypes(s sideD) []reflect.Type {
 	switch s.Kind {
@@ -271,6 +271,12 @@ type stS3 struct {
 	BETA    scn.T2
 }
 
+type stS4 struct {
+	am.Struct
+	scn.T1 // an embedded exported type is an ordinary field named after the type
+	Beta scn.T2
+}
+
 func obsC14(raw json.RawMessage) map[string]interface{} {
 	var d d14
 	if err := json.Unmarshal(raw, &d); err != nil {
@@ -288,6 +294,8 @@ func obsC14(raw json.RawMessage) map[string]interface{} {
 		fn = func(stS2in) *stS2out { return nil }
 	case "S3":
 		fn = func(*stS3) {}
+	case "S4":
+		fn = func(stS4) {}
 	default:
 		inT := sideTypes(d.Inp)
 		outT := sideTypes(d.Out)
